@@ -21,9 +21,7 @@ from sa.undefined import collection_params_rebound, implicit_none_paths, iterabl
 HERE = os.path.dirname(os.path.dirname(os.path.abspath(__file__)))
 
 # reads outside every property's quantifier: reported as NOTE, with the reason
-R31_NOTES = {
-    ("solvor/pagerank.py", "pagerank", "max_diff"): "pagerank(max_iter=0) reads `max_diff` before any iteration bound it; max_iter is not in C15's quantifier",
-}
+R31_NOTES: dict = {}  # (the one former entry, pagerank's `max_diff` for max_iter=0, was repaired: ledger row 63)
 
 
 def anchor_modules(ctx: Ctx) -> list:
